@@ -518,9 +518,123 @@ type history struct {
 	// "full": Reset, then every call of ops observed in sequence;
 	// "fan":  Reset at the state reached by prefix, then every call of ops observed FROM THAT STATE
 	//         (the edges of one model state: they share the call path that reaches it)
+	// "bulk": a family of N random 8-byte keys with 33-byte values, so that ONE NodeDatabase.Commit
+	//         carries several IdealBatchSize of nodes (see bulk below)
 	Mode   string `json:"mode"`
 	Prefix []call `json:"prefix"`
 	Ops    []call `json:"ops"`
+	N      int    `json:"n"`
+	Salt   int64  `json:"salt"`
+}
+
+// bulk builds a large trie on the real code, commits it with one Trie.Commit + one
+// NodeDatabase.Commit, re-opens the root on a fresh NodeDatabase over the same disk store and
+// reports what that reload answers; then a second version (a third of the keys rewritten, a third
+// deleted) the same way.  The key/value pairs are the input; nothing else is expected here.
+func bulk(n int, salt int64) []map[string]interface{} {
+	rng := vutil.Rng(2000 + salt)
+	s := newSubject()
+	type pair struct{ k, v []byte }
+	content := map[string][]byte{}
+	randVal := func() []byte {
+		v := make([]byte, 33)
+		rng.Read(v)
+		return v
+	}
+	for len(content) < n {
+		k := make([]byte, 8)
+		rng.Read(k)
+		content[string(k)] = randVal()
+	}
+	out := []map[string]interface{}{}
+	phase := func(name string) {
+		ev := map[string]interface{}{"phase": name, "n": len(content), "panic": "", "commitErr": true, "flushErr": true, "openErr": true,
+			"missing": -1, "wrong": -1, "iterated": -1, "ascending": false, "iterWrong": -1,
+			"rootLive": "none", "rootReload": "none", "ref": "undecodable", "fresh": "none", "diskNodes": 0}
+		defer func() {
+			if p := recover(); p != nil {
+				ev["panic"] = fmt.Sprint(p)
+			}
+			out = append(out, ev)
+		}()
+		root, err := s.t.Commit(nil)
+		ev["commitErr"] = err != nil
+		ev["rootLive"] = trieutil.Hex(root[:])
+		ev["flushErr"] = s.nodedb.Commit(root, false) != nil // one commit carrying every new node
+		ev["diskNodes"] = s.disk.Len()
+		fresh := trie.NewDatabase(s.disk)
+		t, err := trie.NewTrie(root, fresh)
+		ev["openErr"] = err != nil
+		if err != nil {
+			return
+		}
+		missing, wrong := 0, 0
+		for k, v := range content {
+			got, err := t.TryGet([]byte(k))
+			if err != nil || len(got) == 0 {
+				missing++
+			} else if !bytes.Equal(got, v) {
+				wrong++
+			}
+		}
+		ev["missing"], ev["wrong"] = missing, wrong
+		it := trie.NewIterator(t.NodeIterator(nil))
+		count, iterWrong, asc := 0, 0, true
+		var prev []byte
+		for it.Next() {
+			if v, ok := content[string(it.Key)]; !ok || !bytes.Equal(v, it.Value) {
+				iterWrong++
+			}
+			if prev != nil && bytes.Compare(prev, it.Key) >= 0 {
+				asc = false
+			}
+			prev = append([]byte{}, it.Key...)
+			count++
+		}
+		ev["iterated"], ev["iterWrong"], ev["ascending"] = count, iterWrong, asc && it.Err == nil
+		h := t.Hash()
+		ev["rootReload"] = trieutil.Hex(h[:])
+		// digest of the structure found on disk under the independent primitives
+		if stored, err := trieutil.DecodeStored(root[:], func(h []byte) ([]byte, bool) {
+			b, err := s.disk.Get(h)
+			return b, err == nil && len(b) > 0
+		}); err == nil {
+			ev["ref"] = trieutil.Hex(trieutil.Root(stored))
+		}
+		// the root of a fresh real trie filled in sorted order
+		ks := make([]string, 0, len(content))
+		for k := range content {
+			ks = append(ks, k)
+		}
+		sort.Strings(ks)
+		f := newSubject()
+		for _, k := range ks {
+			f.t.TryUpdate([]byte(k), content[k])
+		}
+		fh := f.t.Hash()
+		ev["fresh"] = trieutil.Hex(fh[:])
+		// go on from the reloaded state, as a restarted node would
+		s.nodedb, s.t = fresh, t
+	}
+	for k, v := range content {
+		s.t.TryUpdate([]byte(k), v)
+	}
+	phase("insert")
+	i := 0
+	for k := range content {
+		switch i % 3 {
+		case 0:
+			v := randVal()
+			content[k] = v
+			s.t.TryUpdate([]byte(k), v)
+		case 1:
+			delete(content, k)
+			s.t.TryDelete([]byte(k))
+		}
+		i++
+	}
+	phase("rewrite-and-delete")
+	return out
 }
 
 func opsJSON(ops []call) []interface{} {
@@ -584,6 +698,17 @@ func main() {
 			"ops": []interface{}{}, "keys": []interface{}{}, "vlen": []int{}, "vfirst": []int{}, "fan": false}
 	}
 	for n, h := range histories {
+		if h.Mode == "bulk" {
+			for _, b := range bulk(h.N, h.Salt) {
+				ev := base("Bulk", call{}, result{})
+				ev["fan"] = true
+				ev["bulk"] = b
+				ev["proj"] = map[string]interface{}{}
+				emit(ev)
+				calls += h.N
+			}
+			continue
+		}
 		fan := h.Mode == "fan"
 		ev := base("Reset", call{}, result{})
 		if n == 0 {
